@@ -30,7 +30,11 @@ type Prog struct {
 	ssaPkgs []*ssa.Package
 	cg      *callgraph.Graph
 
-	CanonA, CanonB int // statements rewritten by canonicalise (if-panic -> Assert, else-after-terminator flattened)
+	CanonA, CanonB int      // statements rewritten by canonicalise (if-panic -> Assert, else-after-terminator flattened)
+	Inlined        int      // calls of helpers unknown at the pinned commit that were virtually inlined
+	NewFuncs       []string // those helpers
+	inlRanges      []inlRange
+	declIdx        map[types.Object]*ast.FuncDecl
 }
 
 func short(pkgPath string) string {
@@ -89,6 +93,7 @@ func loadProg(repo string) (*Prog, error) {
 	// the SSA form is built from the parsed trees as they are; only then are the trees canonicalised for the AST/CFG rules
 	p.SSA()
 	if os.Getenv("YAE_NO_CANON") == "" {
+		p.inlineNewHelpers()
 		p.canonicalise()
 	}
 	return p, nil
@@ -322,4 +327,20 @@ func (p *Prog) countFuncs() int {
 		}
 	}
 	return n
+}
+
+// declOf returns the declaration of a module function or method (nil for functions without source).
+func (p *Prog) declOf(f *types.Func) *ast.FuncDecl {
+	if p.declIdx == nil {
+		p.declIdx = map[types.Object]*ast.FuncDecl{}
+		p.eachFuncDecl(func(pk *packages.Package, fd *ast.FuncDecl) {
+			if o := pk.TypesInfo.Defs[fd.Name]; o != nil {
+				p.declIdx[o] = fd
+			}
+		})
+	}
+	if f == nil {
+		return nil
+	}
+	return p.declIdx[f.Origin()]
 }
